@@ -27,6 +27,8 @@ tr = res[0]["trace"]
 v = D.validate_trace(tr)
 lines = open(tr).read().splitlines()
 print("events:", len(lines), "labels:", len(v["viol"]))
+from collections import Counter
+print("by label:", dict(Counter((p, t) for (p, t, l) in v["viol"])))
 shown = 0
 for (p, t, l) in sorted(v["viol"], key=lambda x: x[2]):
     if tag and t != tag:
